@@ -487,6 +487,35 @@ class Runner:
                     with open(os.path.join(rc.folder, 'duplicates', f'{rc.key(op["k"])}.{uuid.UUID(int=ident)}'), 'wb') as fh:
                         fh.write(self.pool.contents[op['k']])
                 return 'ok'
+            if kind == 'read':
+                # a read-type operation over many keys; the result in a canonical form (cid -> what was reported)
+                keys = [rc.key(k) for k in op['ks']]
+                style = op['style']
+                res: dict = {}
+                if style == 'content':
+                    got = c.get_objects_content(keys, skip_if_missing=False)
+                    res = {str(k): (None if got.get(rc.key(k)) is None else pool.cid_of_bytes(got[rc.key(k)])) for k in op['ks']}
+                elif style == 'content_skip':
+                    got = c.get_objects_content(keys, skip_if_missing=True)
+                    res = {str(k): (pool.cid_of_bytes(got[rc.key(k)]) if rc.key(k) in got else None) for k in op['ks']}
+                elif style == 'meta':
+                    for hk, m_ in c.get_objects_meta(keys, skip_if_missing=False):
+                        res[str(rc.cid(hk))] = None if m_['type'].value == 'missing' else m_['size']
+                elif style == 'has':
+                    res = {str(k): bool(h_) for k, h_ in zip(op['ks'], c.has_objects(keys))}
+                elif style == 'list':
+                    res = {'listed': sorted(x for x in (rc.cid(hk) for hk in c.list_all_objects()) if x is not None)}
+                elif style == 'single':
+                    for k in op['ks']:
+                        try:
+                            res[str(k)] = pool.cid_of_bytes(c.get_object_content(rc.key(k)))
+                        except rc.dos.exceptions.NotExistent:
+                            res[str(k)] = None
+                else:  # streams
+                    with c.get_objects_stream_and_meta(keys, skip_if_missing=False) as triplets:
+                        for hk, st_, m_ in triplets:
+                            res[str(rc.cid(hk))] = None if st_ is None else pool.cid_of_bytes(st_.read())
+                return 'read=' + json.dumps(res, sort_keys=True)
             if kind == 'damage':
                 path = rc.raw().loose_paths.get(rc.key(op['k']))
                 if path is None:
